@@ -521,6 +521,39 @@ def validate_trace(module, trace_path, invariants=(), name="trace", timeout=900,
     return True, 0, res
 
 
+def validate_trace_chunks(module, trace_path, invariants=(), name="trace", max_rejections=4, is_start=None,
+                          constants=None, timeout=900, chunks=8):
+    """Same as validate_trace_resync, but the trace is cut at execution boundaries into `chunks` pieces that are
+    validated by separate TLC processes in parallel (executions are independent: each starts from the initial state)."""
+    lines = open(trace_path).read().splitlines()
+    starts = [i for i, ln in enumerate(lines) if is_start(json.loads(ln))]
+    if len(starts) < 2 * chunks or chunks <= 1:
+        return validate_trace_resync(module, trace_path, invariants, name, max_rejections, is_start, constants, timeout)
+    per = len(lines) // chunks
+    cuts = [0]
+    for st in starts:
+        if st - cuts[-1] >= per and len(cuts) < chunks:
+            cuts.append(st)
+    cuts.append(len(lines))
+    parts = []
+    for k in range(len(cuts) - 1):
+        pth = "%s.chunk%d" % (trace_path, k)
+        with open(pth, "w") as f:
+            f.write("\n".join(lines[cuts[k]:cuts[k + 1]]) + "\n")
+        parts.append((pth, cuts[k]))
+    with ThreadPoolExecutor(max_workers=len(parts)) as ex:
+        res = list(ex.map(lambda pc: validate_trace_resync(module, pc[0], invariants, "%s-c%d" % (name, parts.index(pc)),
+                                                           max_rejections, is_start, constants, timeout), parts))
+    out = {"executions": 0, "rejections": [], "states": 0, "transitions": 0, "lines": len(lines)}
+    for (pth, off), r in zip(parts, res):
+        os.unlink(pth)
+        out["executions"] += r["executions"]
+        out["states"] += r["states"]
+        out["transitions"] += r["transitions"]
+        out["rejections"] += [(ln + off, line, prefix) for (ln, line, prefix) in r["rejections"]]
+    return out
+
+
 def validate_trace_resync(module, trace_path, invariants=(), name="trace", max_rejections=4, is_start=None,
                           constants=None, timeout=900):
     """Validate; on rejection remember the line and continue after the next execution boundary (a line for
